@@ -8,6 +8,7 @@ CONSTANTS
   FD = FALSE
   MaxAge = 2
   QuietTicks = TRUE
+  BumpAdvancesVersion = TRUE
   NodeRank <- Rank
 INVARIANTS ConvergedMembers ConvergedIncarnations ConvergedExact
 CHECK_DEADLOCK FALSE
